@@ -206,7 +206,9 @@ CLAIMED = {
         ref="7/C18"),
     "C19": dict(
         text="Lean model chainPoints / chainProb of mol_prob.py restricted to the property's class (start fragments and their probabilities from get_starting_tokens, the "
-             "(value, previous) pair accumulated per block, including the start end group's mass that the code adds to element 0). Theorems: C19_block_factor (without start "
+             "(value, previous) pair accumulated per block, including the start end group's mass that the code adds to element 0). Theorems: C19_equals_generation_prefix / "
+             "C19_equals_generation_endgroups (the reported value equals the product over blocks of F(n u) - F((n-1) u) for a prefix start and for massless end-group starts whose "
+             "probabilities add up to one), chainProb_no_offset, C19_block_factor (without start "
              "mass the factor is F(n u) - F((n-1) u)), C19_sums_to_one / C19_start_mass_sum (telescoping via C11_telescope: the lengths add up to F(N u) - F(0), with a start "
              "mass m to F(m + N u) - F(m)), C19_start_mass_counterexample (uniform(0,500), m = 72: 1 - 72/500), C19_one_unit_targets / C19_one_unit_factor_gap (one unit is "
              "generated for every target below u; the reported factor misses F(0)), C19_start_probability, C19_prefix_start. The check builds molecules of the class "
